@@ -3,6 +3,7 @@ From Coq Require Import List NArith Arith Lia Bool.
 From RTA.Model Require Import Base Arrival WellFormed.
 From RTA.Spec Require Import Events.
 From RTA.Proofs Require Import ArrivalNaProofs StepsProofs ConvProofs.
+From RTA.Proofs Require Import ConvLink.
 
 (* --- Curve::from_trace: entry i is exactly the minimum span of i + 2 consecutive events; the inferred curve
        bounds the trace in EVERY window of EVERY length --- *)
@@ -97,3 +98,23 @@ Proof. repeat split; vm_compute; reflexivity. Qed.
 Example C12_example_repaired : curve_from_ab (Sporadic 3 7) 3 = [0; 0; 2] /\ curve_from_ab_until (Sporadic 3 7) 0 = [0; 0; 2] /\
   curve_from_ab (Sporadic 5 10) 2 = [0; 0; 5] /\ map (na (Sporadic 3 7)) [1; 2; 3] = [3; 3; 4].
 Proof. repeat split; vm_compute; reflexivity. Qed.
+
+(* ---- no loop hypothesis left (Proofs/ConvLink.v): for sources that keep stepping within a bounded gap the model's horizon-doubling
+        loop provably finds the iterator prefix under an explicit magnitude bound; instances Periodic / Sporadic (parameters < 2^31),
+        From<Sporadic> for Curve included ---- *)
+Theorem C12_from_sporadic_usable : forall T J n, 1 <= T -> T < 2 ^ 31 -> J < 2 ^ 31 -> n < 2 ^ 31 ->
+  wf_dmin (curve_from_ab (Sporadic T J) n).
+Proof. exact curve_from_ab_sporadic_wf. Qed.
+Theorem C12_from_sporadic_dominates : forall T J n, 1 <= T -> T < 2 ^ 31 -> J < 2 ^ 31 -> n < 2 ^ 31 ->
+  forall delta, na (Sporadic T J) delta <= curve_na (curve_from_ab (Sporadic T J) n) delta.
+Proof. exact curve_from_ab_sporadic_dominates. Qed.
+Theorem C12_from_sporadic_until_dominates : forall T J hz, 1 <= T -> T < 2 ^ 31 -> J < 2 ^ 31 -> hz < 2 ^ 31 ->
+  forall delta, na (Sporadic T J) delta <= curve_na (curve_from_ab_until (Sporadic T J) hz) delta.
+Proof. exact curve_from_ab_until_sporadic_dominates. Qed.
+Theorem C12_curve_of_sporadic_dominates : forall T J, 1 <= T -> T < 2 ^ 31 -> J < 2 ^ 31 ->
+  forall delta, na (Sporadic T J) delta <= curve_na (curve_of_sporadic T J) delta.
+Proof. exact curve_of_sporadic_dominates. Qed.
+Definition C12_from_sporadic_exact_upto_last := curve_from_ab_sporadic_exact_upto_last.
+Definition C12_from_periodic_dominates := curve_from_ab_periodic_dominates.
+Definition C12_from_any_source_with_bounded_gaps_usable := curve_from_ab_wf_gap.
+Definition C12_from_any_source_with_bounded_gaps_until_usable := curve_from_ab_until_wf_gap.
